@@ -144,6 +144,12 @@ def gen(rng, tier):
         for i in range(nenv):
             if envs["e%d" % i]["imports"] or rng.chance(1, 4):
                 cases.append(G.case_from_graph(envs, "e%d" % i))
+    # the fold is the same while CHECKING (these worlds have no providers and no ciphertexts, so nothing is unknown): every
+    # fourth case runs in check mode, with or without showSecrets
+    for j, c in enumerate(cases):
+        if j % 4 == 3:
+            c["check"] = True
+            c["show"] = j % 8 == 3
     return cases
 
 
